@@ -163,3 +163,4 @@ INVARIANT SomeAdmitted
     ctx.coverage["declared"] = specs
     ctx.coverage["rule"] = "one case per (available admitted pulser-core version, smoke step); every step is a distinct construction / end-to-end run"
     ctx.coverage["exhaustive"] = False
+    ctx.coverage["distinct_violation_keys"] = sorted(set(ctx.violation_keys))
